@@ -12,6 +12,9 @@ use std::str::FromStr;
 
 pub const PAT_TOKENS: [&str; 12] = ["a", "b", ".", "/", "+", "(", "[", "*", "?", "\\*", "\\?", "\\\\"];
 pub const PATH_CHARS: [&str; 10] = ["a", "b", ".", "/", "+", "(", "[", "*", "?", "\\"];
+/// second glob alphabet: the remaining regex metacharacters and a non-ASCII character
+pub const PAT_TOKENS2: [&str; 12] = ["a", ")", "]", "{", "}", "^", "$", "|", "é", "-", "*", "?"];
+pub const PATH_CHARS2: [&str; 10] = ["a", ")", "]", "{", "}", "^", "$", "|", "é", "-"];
 pub const LOOKUP_PATTERNS: [&str; 5] = ["*", "a/*", "a/b", "*.c", "?"];
 pub const LOOKUP_PATHS: [&str; 6] = ["a/b", "a/c.c", "x", "x.c", "a/b/c", "zz"];
 const FORMAT: &str = "Format: https://www.debian.org/doc/packaging-manuals/copyright-format/1.0/\n";
@@ -28,6 +31,10 @@ pub enum C17Case {
         files: Vec<(usize, usize, bool, usize)>,
         licenses: Vec<usize>,
         path: usize,
+        /// 0 plain; 1 header carries "License: L0" with text; 2 header carries "License: L1" (name only) and a Comment;
+        /// 3 stand-alone licence paragraphs come before the Files paragraphs; 4 after the first Files paragraph
+        #[serde(default)]
+        layout: usize,
     },
     /// text that does not start with a Format field
     NotMachineReadable(usize),
@@ -94,8 +101,32 @@ fn lic_text(kind: usize) -> (String, License) {
     }
 }
 
-fn render_lookup(files: &[(usize, usize, bool, usize)], licenses: &[usize]) -> String {
+pub const LAYOUTS: usize = 5;
+
+/// stand-alone licence j named by n: 0..=2 -> "L<n>" with text, 3..=5 -> "L<n-3>" without text (name and a comment only)
+fn standalone_para(j: usize, n: usize) -> (String, License) {
+    if n < 3 {
+        (format!("\nLicense: L{}\n text of stand-alone {} (L{})\n", n, j, n), License::Named(format!("L{}", n), format!("text of stand-alone {} (L{})", j, n)))
+    } else {
+        (format!("\nLicense: L{}\nComment: stand-alone {} has no text\n", n - 3, j), License::Name(format!("L{}", n - 3)))
+    }
+}
+
+fn render_lookup(files: &[(usize, usize, bool, usize)], licenses: &[usize], layout: usize) -> String {
     let mut t = String::from(FORMAT);
+    match layout {
+        1 => t.push_str("License: L0\n text of the header licence\n"),
+        2 => t.push_str("Comment: about the package\nLicense: L1\n"),
+        _ => {}
+    }
+    let lics = |t: &mut String| {
+        for (j, n) in licenses.iter().enumerate() {
+            t.push_str(&standalone_para(j, *n).0);
+        }
+    };
+    if layout == 3 || (layout == 4 && files.is_empty()) {
+        lics(&mut t);
+    }
     for (i, (p1, p2, own_line, lic)) in files.iter().enumerate() {
         t.push_str("\nFiles: ");
         t.push_str(LOOKUP_PATTERNS[*p1]);
@@ -105,21 +136,24 @@ fn render_lookup(files: &[(usize, usize, bool, usize)], licenses: &[usize]) -> S
         }
         t.push('\n');
         t.push_str(&format!("Copyright: holder{}\nLicense: {}\nComment: p{}\n", i, lic_text(*lic).0, i));
+        if layout == 4 && i == 0 {
+            lics(&mut t);
+        }
     }
-    for (j, n) in licenses.iter().enumerate() {
-        t.push_str(&format!("\nLicense: L{}\n text of stand-alone {} (L{})\n", n, j, n));
+    if layout < 3 {
+        lics(&mut t);
     }
     t
 }
 
-fn check_lookup(files: &[(usize, usize, bool, usize)], licenses: &[usize], path: usize) -> Vec<Viol> {
+fn check_lookup(files: &[(usize, usize, bool, usize)], licenses: &[usize], path: usize, layout: usize) -> Vec<Viol> {
     let mut out = vec![];
-    let text = render_lookup(files, licenses);
+    let text = render_lookup(files, licenses, layout);
     let p = LOOKUP_PATHS[path];
     // reference
     let want_idx = files.iter().enumerate().filter(|(_, (p1, p2, _, _))| gmatch(LOOKUP_PATTERNS[*p1], p) || (*p2 > 0 && gmatch(LOOKUP_PATTERNS[*p2 - 1], p))).map(|(i, _)| i).last();
     let standalone = |name: &str| -> Option<License> {
-        licenses.iter().enumerate().find(|(_, n)| format!("L{}", n) == name).map(|(j, n)| License::Named(format!("L{}", n), format!("text of stand-alone {} (L{})", j, n)))
+        licenses.iter().enumerate().map(|(j, n)| standalone_para(j, *n).1).find(|l| l.name() == Some(name))
     };
     let want_lic: Option<License> = want_idx.and_then(|i| {
         let l = lic_text(files[i].3).1;
@@ -140,8 +174,12 @@ fn check_lookup(files: &[(usize, usize, bool, usize)], licenses: &[usize], path:
             if got_lic != want_lic {
                 out.push(viol("licence-lossless", ctx(&format!("lossless find_license_for_file -> {:?}, expected {:?}", got_lic, want_lic))));
             }
-            if c.iter_files().count() != files.len() || c.iter_licenses().count() != licenses.len() {
-                out.push(viol("paragraph-roles-lossless", ctx(&format!("iter_files {} iter_licenses {}", c.iter_files().count(), c.iter_licenses().count()))));
+            let got_files: Vec<Option<String>> = c.iter_files().map(|f| f.comment()).collect();
+            let want_files: Vec<Option<String>> = (0..files.len()).map(|i| Some(format!("p{}", i))).collect();
+            let got_lics: Vec<Option<String>> = c.iter_licenses().map(|l| l.name()).collect();
+            let want_lics: Vec<Option<String>> = licenses.iter().enumerate().map(|(j, n)| standalone_para(j, *n).1.name().map(|x| x.to_string())).collect();
+            if got_files != want_files || got_lics != want_lics {
+                out.push(viol("paragraph-roles-lossless", ctx(&format!("iter_files yields {:?} (expected {:?}), iter_licenses yields {:?} (expected {:?})", got_files, want_files, got_lics, want_lics))));
             }
             for name in ["L0", "L1", "L2"] {
                 if c.find_license_by_name(name) != standalone(name) {
@@ -160,6 +198,11 @@ fn check_lookup(files: &[(usize, usize, bool, usize)], licenses: &[usize], path:
             let got_lic = c.find_license_for_file(Path::new(p)).cloned();
             if got_lic != want_lic {
                 out.push(viol("licence-lossy", ctx(&format!("lossy find_license_for_file -> {:?}, expected {:?}", got_lic, want_lic))));
+            }
+            for name in ["L0", "L1", "L2"] {
+                if c.find_license_by_name(name).cloned() != standalone(name) {
+                    out.push(viol("licence-by-name-lossy", ctx(&format!("lossy find_license_by_name({}) -> {:?}, expected {:?}", name, c.find_license_by_name(name), standalone(name)))));
+                }
             }
             if c.files.len() != files.len() || c.licenses.len() != licenses.len() {
                 out.push(viol("paragraph-roles-lossy", ctx(&format!("files {} licenses {}", c.files.len(), c.licenses.len()))));
@@ -189,6 +232,12 @@ pub struct C17;
 fn pat_space(t: Tier) -> SeqSpace {
     SeqSpace::new(&PAT_TOKENS, t.pick(3, 4), 1)
 }
+fn pat_space2(t: Tier) -> SeqSpace {
+    SeqSpace::new(&PAT_TOKENS2, t.pick(2, 3), 1)
+}
+fn path_space2(t: Tier) -> SeqSpace {
+    SeqSpace::new(&PATH_CHARS2, t.pick(2, 3), 0)
+}
 fn path_space(t: Tier, pattern_tokens: usize) -> SeqSpace {
     // thorough: 4-token patterns are crossed with paths to length 2 only (cap stated in bounds)
     let n = match t {
@@ -213,10 +262,10 @@ impl Prop for C17 {
         "exploration"
     }
     fn rule(&self, _t: Tier) -> String {
-        "(a) globs: every pattern of 1..3 tokens (thorough 4) over {a b . / + ( [ * ? \\* \\? \\\\} x every path of 0..2 characters (thorough 3; 2 for 4-token patterns) over {a b . / + ( [ * ? \\}, through FilesParagraph::matches of both readers against a backtracking matcher written from the statement; (b) lookup: every copyright file of 0..2 Files paragraphs (thorough: a third paragraph from 8 representative configurations) x (1-2 patterns from 5, second one on the same or its own line) x 4 licence kinds, with 0..2 stand-alone licence paragraphs (names L0/L1 in every order) x 6 paths, through find_files / find_license_for_file / find_license_by_name / iter_* of both readers against 'last match wins; own licence text else first stand-alone of that name'; (c) texts not starting with Format; all cases distinct; non-trivial = all".into()
+        "(a) globs: every pattern of 1..3 tokens (thorough 4) over {a b . / + ( [ * ? \\* \\? \\\\} x every path of 0..2 characters (thorough 3; 2 for 4-token patterns) over {a b . / + ( [ * ? \\}, and every pattern of 1..2 tokens (thorough 3) over {a ) ] { } ^ $ | é - * ?} x every path of 0..2 (thorough 3) characters over the same characters without * ?, through FilesParagraph::matches of both readers against a backtracking matcher written from the statement; (b) lookup: every copyright file (plain; header carrying a licence with text / a licence name and comment; stand-alone licence paragraphs before or between the Files paragraphs - these four layouts with up to 1 (thorough 2) Files paragraphs) of 0..2 Files paragraphs (thorough: a third paragraph from 8 representative configurations) x (1-2 patterns from 5, second one on the same or its own line) x 4 licence kinds, with 0..2 stand-alone licence paragraphs (names L0/L1 in every order, with text or name only) x 6 paths, through find_files / find_license_for_file / find_license_by_name / iter_* of both readers against 'last match wins; own licence text else first stand-alone of that name'; (c) texts not starting with Format; all cases distinct; non-trivial = all".into()
     }
     fn bounds(&self, t: Tier) -> Value {
-        json!({"pattern_tokens": PAT_TOKENS, "path_chars": PATH_CHARS, "max_pattern_tokens": t.pick(3, 4), "max_path_len": t.pick(2, 3), "lookup_patterns": LOOKUP_PATTERNS, "lookup_paths": LOOKUP_PATHS, "max_files_paragraphs": t.pick(2, 3)})
+        json!({"pattern_tokens": PAT_TOKENS, "path_chars": PATH_CHARS, "pattern_tokens_2": PAT_TOKENS2, "path_chars_2": PATH_CHARS2, "max_pattern_tokens_2": t.pick(2, 3), "layouts": LAYOUTS, "max_pattern_tokens": t.pick(3, 4), "max_path_len": t.pick(2, 3), "lookup_patterns": LOOKUP_PATTERNS, "lookup_paths": LOOKUP_PATHS, "max_files_paragraphs": t.pick(2, 3)})
     }
     fn assumptions(&self) -> Vec<String> {
         vec![
@@ -225,7 +274,7 @@ impl Prop for C17 {
         ]
     }
     fn n_shards(&self, t: Tier) -> usize {
-        pat_space(t).n_shards() + 1 + files_cfgs().len() + 1
+        pat_space(t).n_shards() + 1 + files_cfgs().len() + 1 + pat_space2(t).n_shards()
     }
     fn explore(&self, t: Tier, shard: usize, f: &mut dyn FnMut(&C17Case) -> Verdict) {
         let ps = pat_space(t);
@@ -253,11 +302,35 @@ impl Prop for C17 {
         // lookups, sharded by the configuration of the first Files paragraph
         let cfgs = files_cfgs();
         let li = shard - ps.n_shards() - 1;
-        let lic_sets: [&[usize]; 4] = [&[], &[0], &[1, 0], &[0, 0]];
+        if li > cfgs.len() {
+            // second glob alphabet
+            let ps2 = pat_space2(t);
+            let paths = path_space2(t);
+            ps2.explore(li - cfgs.len() - 1, &mut |pattern, _| {
+                if pattern.is_empty() {
+                    return;
+                }
+                let pattern = pattern.to_string();
+                for s in 0..paths.n_shards() {
+                    paths.explore(s, &mut |path, _| {
+                        f(&C17Case::Glob { pattern: pattern.clone(), path: path.to_string() });
+                    });
+                }
+            });
+            return;
+        }
+        let lic_sets: [&[usize]; 6] = [&[], &[0], &[1, 0], &[0, 0], &[3, 0], &[0, 3]];
         let mut emit = |files: &Vec<(usize, usize, bool, usize)>| {
-            for licenses in lic_sets {
-                for path in 0..LOOKUP_PATHS.len() {
-                    f(&C17Case::Lookup { files: files.clone(), licenses: licenses.to_vec(), path });
+            // the non-plain layouts: up to one Files paragraph (thorough: two)
+            let layouts = if files.len() <= t.pick(1, 2) { LAYOUTS } else { 1 };
+            for layout in 0..layouts {
+                for licenses in lic_sets {
+                    if layout >= 3 && licenses.is_empty() {
+                        continue; // same text as the plain layout
+                    }
+                    for path in 0..LOOKUP_PATHS.len() {
+                        f(&C17Case::Lookup { files: files.clone(), licenses: licenses.to_vec(), path, layout });
+                    }
                 }
             }
         };
@@ -281,15 +354,19 @@ impl Prop for C17 {
         st.nontrivial += 1;
         let r = guard(1_000_000, || match c {
             C17Case::Glob { pattern, path } => check_glob(pattern, path),
-            C17Case::Lookup { files, licenses, path } => check_lookup(files, licenses, *path),
+            C17Case::Lookup { files, licenses, path, layout } => check_lookup(files, licenses, *path, *layout),
             C17Case::NotMachineReadable(i) => {
                 let mut out = vec![];
                 let t = NOT_MR[*i];
-                if ll::Copyright::from_str(t).is_ok() || ll::Copyright::from_str_relaxed(t).is_ok() {
-                    out.push(viol("refuses-not-machine-readable", format!("lossless reader accepted {:?}", t)));
+                let a = ll::Copyright::from_str(t).err();
+                let b = ll::Copyright::from_str_relaxed(t).err();
+                if !matches!(a, Some(ll::Error::NotMachineReadable)) || !matches!(b, Some(ll::Error::NotMachineReadable)) {
+                    out.push(viol("refuses-not-machine-readable", format!("lossless reader on {:?}: from_str {:?}, from_str_relaxed {:?}; expected the not-machine-readable error", t, a.map(|e| e.to_string()), b.map(|e| e.to_string()))));
                 }
-                if ly::Copyright::from_str(t).is_ok() {
-                    out.push(viol("refuses-not-machine-readable", format!("lossy reader accepted {:?}", t)));
+                match ly::Copyright::from_str(t) {
+                    Ok(_) => out.push(viol("refuses-not-machine-readable", format!("lossy reader accepted {:?}", t))),
+                    Err(e) if !e.to_lowercase().contains("machine readable") => out.push(viol("refuses-not-machine-readable", format!("lossy reader on {:?}: error {:?} does not say 'not machine readable'", t, e))),
+                    Err(_) => {}
                 }
                 out
             }
@@ -343,23 +420,27 @@ impl Prop for C17 {
                 }
                 out
             }
-            C17Case::Lookup { files, licenses, path } => {
+            C17Case::Lookup { files, licenses, path, layout } => {
                 let mut out = vec![];
+                let layout = *layout;
+                if layout != 0 {
+                    out.push(C17Case::Lookup { files: files.clone(), licenses: licenses.clone(), path: *path, layout: 0 });
+                }
                 for i in 0..files.len() {
                     let mut x = files.clone();
                     x.remove(i);
-                    out.push(C17Case::Lookup { files: x, licenses: licenses.clone(), path: *path });
+                    out.push(C17Case::Lookup { files: x, licenses: licenses.clone(), path: *path, layout });
                     if files[i].1 != 0 {
                         let mut x = files.clone();
                         x[i].1 = 0;
                         x[i].2 = false;
-                        out.push(C17Case::Lookup { files: x, licenses: licenses.clone(), path: *path });
+                        out.push(C17Case::Lookup { files: x, licenses: licenses.clone(), path: *path, layout });
                     }
                 }
                 for i in 0..licenses.len() {
                     let mut x = licenses.clone();
                     x.remove(i);
-                    out.push(C17Case::Lookup { files: files.clone(), licenses: x, path: *path });
+                    out.push(C17Case::Lookup { files: files.clone(), licenses: x, path: *path, layout });
                 }
                 out
             }
